@@ -161,6 +161,9 @@ func c18cases(tier string) []c18case {
 		{[]string{"thr1", "task"}, []string{"wtask", "wtriv"}, []c18flow{{From: 0, To: 2, Kind: "start"}}},
 		{[]string{"thr1", "cat"}, nil, []c18flow{{From: 0, To: 1, Kind: "catch"}}},
 		{[]string{"thr1", "cat", "triv"}, []string{"wtask"}, []c18flow{{From: 0, To: 1, Kind: "catch"}}},
+		// the referenced catch event is not a top-level node of its member: it waits inside an embedded sub-process
+		{[]string{"thr1", "subcat"}, nil, []c18flow{{From: 0, To: 1, Kind: "catch"}}},
+		{[]string{"thr1", "subcat", "task"}, []string{"wtask"}, []c18flow{{From: 0, To: 1, Kind: "catch"}}},
 		{[]string{"thr1", "thr1"}, []string{"wtask"}, []c18flow{{From: 0, To: 2, Kind: "start"}, {From: 1, To: 2, Kind: "start"}}},
 		{[]string{"thr1", "thr1"}, []string{"wtask", "wtriv"}, []c18flow{{From: 0, To: 2, Kind: "start"}, {From: 1, To: 3, Kind: "start"}}},
 		{[]string{"thr1", "thr1", "cat"}, []string{"wtask"}, []c18flow{{From: 0, To: 3, Kind: "start"}, {From: 1, To: 2, Kind: "catch"}}},
@@ -364,6 +367,14 @@ func c18graph(id, shape string, executable bool) *eng.Graph {
 		} else {
 			chain(us, ue)
 		}
+		chain(st, u, task("A"), en)
+	case "subcat": // the catch event a message flow refers to sits INSIDE an embedded sub-process of the member
+		u := g.Add("subProcess", "U", "")
+		us := g.Add("startEvent", "us", u.ID)
+		ue := g.Add("endEvent", "ue", u.ID)
+		c := g.Add("intermediateCatchEvent", "c", u.ID)
+		c.Defs = []eng.EventDef{{Kind: "message", Name: "msg_" + id + "_c"}}
+		chain(us, c, ue)
 		chain(st, u, task("A"), en)
 	case "wthr":
 		chain(st, task("A"), throw(), en)
